@@ -189,7 +189,9 @@ Definition routines : list routine := [
   (* 24 StreamStats.Combine(o): writes the receiver, only reads o *)
   {| r_id := 24; r_nargs := 2; r_prog := [Update 0 f_any [0; 1]] |};
   (* 25 KDE.PDF/CDF/Bounds with Bandwidth = 0: fills the Bandwidth cell (arg 2), nothing else (kde.go:141-145) *)
-  {| r_id := 25; r_nargs := 3; r_prog := [Update 2 f_any [0; 1; 2]; Compute 10 f_any [0; 2]; Compute 11 f_any [10; 1]; Compute 99 f_any [11]] |}
+  {| r_id := 25; r_nargs := 3; r_prog := [Update 2 f_any [0; 1; 2]; Compute 10 f_any [0; 2]; Compute 11 f_any [10; 1]; Compute 99 f_any [11]] |};
+  (* 30 pseudo-routine of the API-surface cases ("@api", "@unlisted:<name>", harness/c20api.go): no arrays *)
+  {| r_id := 30; r_nargs := 0; r_prog := [] |}
 ].
 
 Definition find_routine (id : Z) : option routine := find (fun r => Z.eqb (r_id r) id) routines.
